@@ -202,6 +202,30 @@ func init() {
 						attestCase(c, "bind.short."+fd[0], fd[0], []string{fd[1]}, v == 1)
 					}
 				}
+				// fido-u2f signs 32 bytes per coordinate: a credential key with longer coordinates (P-384, P-521) would leave their low-order
+				// bytes outside the signature, so such a statement must not verify at all
+				for v := 0; v < 2; v++ {
+					attestCase(c, "bind.short.fido-u2f", "fido-u2f", []string{"u2f.credWiderCurve"}, v == 1)
+					attestCase(c, "bind.short.fido-u2f", "fido-u2f", []string{"u2f.coordOversize"}, v == 1)
+				}
+				{
+					// the same shown as a bit flip: the statement made for one key, presented with the last bit of y changed
+					r := c.R
+					s := newRegSpec(r, "fido-u2f", algES256)
+					s.AttAlg = algES256
+					s.Dev["u2f.credWiderCurve"] = true
+					b := buildRegistration(r, s)
+					mb := *b
+					last := len(b.AuthData) - 1
+					if s.Flags&0x80 != 0 {
+						last -= len(s.Ext)
+					}
+					mb.AuthData = flipBit(b.AuthData, last*8+7)
+					op := mb.AttestOp(fmtID("fido-u2f"))
+					op["_dev"] = "u2f.credWiderCurve+flip-last-bit-of-y"
+					op["_expectOK"] = false
+					executors["attest"](c, "bind.short.fido-u2f", op)
+				}
 				// the statement presents x5c[0]; the signature was made by the key of a LATER chain element (honest leaf placed second)
 				for _, f := range []string{"packed-x5c", "tpm", "android-key", "apple"} {
 					attestCase(c, "bind.otherKey."+f, f, []string{"x5c.leafSecond"}, false)
